@@ -88,49 +88,79 @@ def gen_tree():
 
 
 def ast_term(items):
-    """a replacement (JSON from the harness op h_unicode_ast) as a Coq term of Model/RuleAst.v"""
+    """a replacement (JSON from the harness op h_rules_tast) as a Coq term of Model/RuleAst.v"""
     def item(x):
-        if x == "x":
+        k = x["k"]
+        if k == "T":
+            return "T1" if x["ne"] else "T0"
+        if k == "X":
             return "X"
-        if x == "s":
-            return "Z"
-        if "t" in x:
-            return "T1" if x["t"] else "T0"
-        if "w" in x:
-            return "(RWrap %s)" % lst(x["w"])
-        bs = "(BEnd %s)" % ("ENone" if x["else"] is None else "(ESome %s)" % lst(x["else"]))
-        for b in reversed(x["test"]):
-            bs = "(BCons %s %s)" % (lst(b), bs)
-        return "(RTest %s)" % bs
+        if k == "S":
+            return "(ITts %s %s)" % ("true" if x["cmd"] in ("spell", "pronounce") else "false", lst(x["body"]))
+        if k == "N":
+            return "(IIntent %s)" % lst(x["body"])
+        if k == "?":
+            return "(ITest %s)" % entries(x["entries"])
+        if k == "W":
+            return "(IWith %s)" % lst(x["body"])
+        if k == "V":
+            return "V"
+        if k == "+":
+            return "(IInsert %s)" % lst(x["body"])
+        if k == "L":
+            return "ITranslate"
+        return "IBad"
+
+    def part(p):
+        if p is None:
+            return "PNone"
+        if "r" in p:
+            return "(PRepl %s)" % lst(p["r"])
+        return "(PTest %s)" % entries(p["t"])
+
+    def entries(es):
+        out = "ENil"
+        for e in reversed(es):
+            out = "(ECons %s %s %s %s)" % ("true" if e["cond"] else "false", part(e["then"]), part(e["else"]), out)
+        return out
 
     def lst(l):
-        out = "RNil"
+        out = "INil"
         for x in reversed(l):
-            out = "(RCons %s %s)" % (item(x), out)
+            out = "(ICons %s %s)" % (item(x), out)
         return out
     return lst(items)
 
 
-def gen_unicode_entries():
-    """Gen/UnicodeEntries.v: per language Unicode file, (first code point of the key, the replacement as a rule AST)"""
-    ops, names = [], []
+AST_NOTATIONS = ("Notation T1 := (IText true).\nNotation T0 := (IText false).\nNotation X := IX.\nNotation V := ISetVars.\n")
+
+
+def unicode_files():
     base = os.path.join(C.RULES, "Languages")
+    out = []
     for root, _, files in sorted(os.walk(base)):
         for f in sorted(files):
             if f in ("unicode.yaml", "unicode-full.yaml") and os.sep + "zz" not in root:
-                ops.append(["h_unicode_ast", os.path.join(root, f)])
-                names.append(os.path.relpath(os.path.join(root, f), base))
-    r = C.one_session(ops)["res"]
+                out.append(os.path.join(root, f))
+    return out
+
+
+def gen_unicode_entries():
+    """Gen/UnicodeEntries.v: per language Unicode file, (first code point of the key, the replacement as a rule AST)"""
+    base = os.path.join(C.RULES, "Languages")
+    paths = unicode_files()
+    names = [os.path.relpath(p, base) for p in paths]
+    r = C.one_session([["h_rules_tast", p] for p in paths])["res"]
     defs, total = [], 0
     for i, (nm, x) in enumerate(zip(names, r)):
         ents = x.get("ok")
         if ents is None:
             raise RuntimeError("cannot read %s: %s" % (nm, x))
+        ents = [e for e in ents if e.get("char")]
         total += len(ents)
-        defs.append("Definition uf%d : list (N * repls) := [\n%s\n]." % (i, ";\n".join("(%d, %s)" % (ord(k[0]), ast_term(a)) for k, a in ents if k)))
-    body = HEADER + "From MC Require Import Lib.Base Model.RuleAst.\n" \
-        "Notation T1 := (RText true).\nNotation T0 := (RText false).\nNotation X := RXpath.\nNotation Z := RSilent.\n" + "\n".join(defs) + \
-        "\nDefinition unicode_entries : list (str * list (N * repls)) := [" + "; ".join("(%s, uf%d)" % (cstr(nm), i) for i, nm in enumerate(names)) + "].\n"
+        defs.append("Definition uf%d : list (N * items) := [\n%s\n]." % (i, ";\n".join("(%d, %s)" % (ord(e["char"][0]), ast_term(e["replace"])) for e in ents)))
+    body = HEADER + "From MC Require Import Lib.Base Model.RuleAst.\n" + AST_NOTATIONS + "\n".join(defs) + \
+        "\nDefinition unicode_entries : list (str * list (N * items)) := [" + "; ".join("(%s, uf%d)" % (cstr(nm), i) for i, nm in enumerate(names)) + "].\n"
     C.write_if_changed(os.path.join(C.GEN, "UnicodeEntries.v"), body)
     return total
 
@@ -456,17 +486,29 @@ def known_witnesses(res):
 
 
 def py_speaks(items):
-    """the analysis of Model/RuleAst.v speaks_list, in python, for the search only"""
+    """the analysis of Model/RuleAst.v speaks_items, in python, for the search only"""
     def item(x):
-        if x == "x":
+        k = x["k"]
+        if k == "T":
+            return x["ne"]
+        if k in ("X", "L"):
             return True
-        if x == "s":
+        if k == "S":
+            return x["cmd"] in ("spell", "pronounce") or lst(x["body"])
+        if k in ("N", "W"):
+            return lst(x["body"])
+        if k == "?":
+            return entries(x["entries"])
+        return False
+
+    def part(p):
+        return False if p is None else lst(p["r"]) if "r" in p else entries(p["t"])
+
+    def entries(es):
+        if not es:
             return False
-        if "t" in x:
-            return x["t"]
-        if "w" in x:
-            return lst(x["w"])
-        return all(lst(b) for b in x["test"]) and x["else"] is not None and lst(x["else"])
+        e = es[0]
+        return (part(e["then"]) if e["cond"] else True) and (entries(es[1:]) if e["else"] is None else part(e["else"]))
 
     def lst(l):
         return any(item(x) for x in l)
@@ -487,8 +529,8 @@ def silent_search(res):
             p = os.path.join(d, f)
             if not os.path.exists(p):
                 continue
-            ents = C.one_session([["h_unicode_ast", p]])["res"][0].get("ok") or []
-            bad = [k for k, a in ents if k and not may_be_silent(ord(k[0])) and not py_speaks(a)]
+            ents = C.one_session([["h_rules_tast", p]])["res"][0].get("ok") or []
+            bad = [e["char"] for e in ents if e.get("char") and not may_be_silent(ord(e["char"][0])) and not py_speaks(e["replace"])]
             for k in bad[:20]:
                 ch = k[0]
                 for style in ("ClearSpeak", "SimpleSpeak"):
@@ -527,7 +569,7 @@ def run(res):
     if proved:
         oracle(res)
     res.trusted += ["hook prefs::verif::files (the rule files the preference manager has located)",
-                    "harness h_unicode_ast: the dump of every Unicode replacement as a rule AST with the library's YAML parser crate (the analysis itself is Coq's speaks_list, "
+                    "harness h_rules_tast: the dump of every Unicode replacement as a rule AST with the library's YAML parser crate (the analysis itself is Coq's speaks_items, "
                     "proved sound in Proofs/RuleAstP.v; computed items -- x, spell, pronounce, translate -- are taken to speak)",
                     "python listing of /repo/Rules (os.walk) and the split of reported paths into components"]
     res.assumptions += ["what a located rule file does when its rules fire (xpath evaluation, rule matching) is the library's and is decided by the oracle over the corpus, not proved",
